@@ -11,10 +11,10 @@ T = {
          'state, plus bounded operation sequences; live handle, fresh handle and an independent decoder compared with the NumPy model.',
          'Outside: more than F chunks per call, sequences longer than L, two handles on one directory, bit patterns (N-bits).'),
  'C04': ('ragged append / iterappend / truncate / getitem / iter_arrays / create / asraggedarray from an arbitrary valid state with K '
-         'pre-existing subarrays of unbounded (incl. zero) length, compared with a list-of-arrays model on live and fresh handles.',
+         'pre-existing subarrays of unbounded (incl. zero) length (appended items as ndarray in row-major / column-major / strided layout, other type, list), compared with a list-of-arrays model on live and fresh handles.',
          'Outside: more than K pre-existing subarrays, more than F items per call.'),
  'C05': ('the C04 harness family asserted with an independent on-disk decoder of values/, indices/ and the top-level descriptor '
-         '(contiguity of index rows, last end = N, len/size/atom/numtype).', 'Outside: as C04.'),
+         '(contiguity of index rows, last end = N, len/size/atom/numtype); also after an iterappend that FAILED part-way (harness shared with C10).', 'Outside: as C04.'),
  'C09': ('iterappend/append with a symbolic failure position and kind; write refusal modelled as a symbolic byte limit so that every '
          'byte offset (chunk boundary +-1, mid-row, mid-element) is one variable; recovery path executed from source.',
          'Outside: a second fault during recovery. Replay uses a child process under RLIMIT_FSIZE.'),
@@ -24,7 +24,7 @@ T = {
          'so that the empty-array substitute path is a value; oracle = raises AND whole-directory snapshot identical; then succeeds in r+.',
          'Outside: a second handle on the same directory.'),
  'C13': ('sequences of <= 2 metadata operations (8 kinds) from {no file, 1 key, 2 keys} with symbolic key selectors and 11 value kinds with symbolic int '
-         'payloads, against a dict model under JSON round trip; file exists iff non-empty; fresh handle agrees.',
+         'payloads, against a dict model under JSON round trip; file exists iff non-empty; fresh handle agrees; the same for the state right after each of the 6 creating functions with metadata None / {} / one key.',
          'Outside: json rendering of NaN / non-ASCII (N-json); sequences longer than 2.'),
  'C17': ('symbolic crash point before any FS-mutating primitive + symbolic torn prefix of the in-flight write, for append / iterappend (incl. recovery path) / '
          'truncate / metadata change on Array and RaggedArray; oracle = fresh open raises or shows before / after / original + whole chunks.',
@@ -43,17 +43,20 @@ T.update({
          'Outside: line-wrapping positions (layout).'),
  'C12': ('sequences of two accesses (read / write with an opaque index token of symbolic validity, first-axis slices and ints with symbolic bounds) inside '
          'or outside one open_array() context, followed by later file changes; results must be detached (a view of a closed map raises UseAfterUnmap in the '
-         'model), equal to reference[idx], durable, and no file object / map may stay open.',
+         'model), equal to reference[idx], durable, and no file object / map may stay open (the caller keeps the exception objects of failed accesses); tuple indices '
+         'with an Ellipsis; an inner context or chunk iterator asking for another access mode than the enclosing one; arrays without elements.',
          'Outside: NumPy own evaluation of index expressions (N-index); two consecutive symbolic slice assignments.'),
  'C14': ('E1: real fit_frames over ALL integers, real iterindices with every parameter symbolic (trip count bounded by the precondition), real iterchunks on '
          'the model array (detached copies, tiling). E2: lemmas generated from the AST of fit_frames / iterindices as SMT-LIB2, unsat required from z3 4.8.12, '
-         'z3 5.1 and cvc5 1.0.3 (unbounded, no unrolling); translator validated against the real function on the repository test triples and a grid.',
+         'z3 5.1 and cvc5 1.0.3 (unbounded, no unrolling); translator validated against the real function on the repository test triples and a grid; a source that '
+         'divides with "/" is decided below 2^53 only and searched for a witness above, which is run on the real function.',
          'Outside: more than KMAX full frames per iterindices call in E1 (E2 lemmas are unbounded).'),
  'C15': ('Array.copy / RaggedArray.copy with symbolic lengths (length-0 sources and ragged arrays without subarrays included), target dtypes, nested metadata and '
          'one post-copy mutation on either side; archive(): what Darr decides (name, mode, compression types, arcname, refusal) against a tarfile model.',
          'Outside: byte identity after extraction (N-tar; exercised in replay with real archives).'),
  'C16': ('delete_array / delete_raggedarray with 0..2 foreign nodes (file, dir, dir with file, symlink to file / dir, directory named like a Darr file) at top / '
-         'values / indices; non-Darr targets; each of the 7 creating functions on each previous occupant with overwrite symbolic/split; FS snapshot algebra.',
+         'values / indices (and with a metadata.json holding {}); non-Darr targets and arrays of the other kind, by path and as a writable object; each of the 7 creating functions on each previous '
+         'occupant (user files also inside values/ and indices/ of a RaggedArray occupant) with overwrite symbolic/split, incl. creation failing part-way; FS snapshot algebra.',
          'Outside: hard links, mount points, symlinks named like a Darr file.'),
  'C18': ('one corrupted descriptor field at a time (30 token classes) x {Array, ragged values, ragged indices}; data length off by ANY non-zero delta; two-axis '
          'shapes with a negative extent and any file length; oracle: every opener raises, delete/truncate by path raise TypeError and the snapshot is unchanged.',
@@ -72,13 +75,15 @@ T.update({
          'placeholders and mapped back to terms); a per-language interpreter (vf/lang/arraycode.py, one per target language, written from the documented '
          'binary-read / reshape semantics) parses the program - a parse, arity or type failure is "not well-formed" - and z3 decides count = prod(extents), '
          'dims = extents (row-major) or reversed (column-major), type / endianness tokens, requested path and read-only open mode; offered / withheld against '
-         'the tables parsed from docs/readcode.rst; offset identity lemma by z3 and cvc5.',
+         'the tables parsed from docs/readcode.rst; offset identity lemma by z3 and cvc5; what the Darr-language program does (open with default mode, read) changes '
+         'no file, for descriptions written by the running, an older or a newer Darr version, n >= 0 rows.',
          'Outside: the truth of the foreign-language rules (trusted base, each quoted with its reference); the Python-family rules are validated by executing '
          'the real snippets with the real NumPy (conformance + replay).'),
  'C07': ('the real ragged readcode() with symbolic number of subarrays, values length, atom extents and index row (S <= E, zero-length subarrays included); '
          'the embedded array reads go through the C06 interpreters, the subarray accessor is evaluated symbolically under each language indexing rules '
          '(origin, end inclusiveness, axis order, empty ranges / guards) and z3 decides that it selects exactly rows [S, E); example statement = well-formed '
-         'binding of the stated existing subarray; withheld iff values or index type unsupported.',
+         'binding of the stated existing subarray; withheld iff values or index type unsupported; read code asked again on the same handle after truncate / append '
+         'describes the array as it is then; running the Darr-language program changes no file (descriptions of other Darr versions included).',
          'Outside: the truth of the indexing rules encoded in vf/lang/raggedcode.py (trusted base); numpymemmap / darr snippets are executed in conformance.'),
 })
 CHECKS = {k: dict(text=E1 + v[0], note=BASE_NOTE + v[1]) for k, v in T.items()}
